@@ -17,6 +17,21 @@ static DocOpts opts() {
     return o;
 }
 
+// One case in four: a first field with the smallest possible name holding 880..1135 bytes, so that the rest of the
+// document (nested containers included) lies around and beyond offset 1000, the size of serialize()'s first-try buffer
+static void pad_first(DocCase &c, Src &s) {
+    if (c.mode != DM_TREE || !c.have_tree || c.array_root) return;
+    uint8_t sel = s.u8();
+    if (sel % 4 != 1) return;
+    if (!c.tree.c.empty() && c.tree.c[0].name.empty()) return;
+    Value pad;
+    pad.k = (sel & 4) ? ref::K_BYT : ref::K_STR;
+    pad.has_name = true;
+    pad.s.assign(880 + (size_t)s.u8(), (uint8_t)'p');
+    c.tree.c.insert(c.tree.c.begin(), pad);
+    c.doc = ref::encode(c.tree);
+}
+
 static BinsonValue to_bv(const Value &v, Src &order);
 
 static Binson to_binson(const Value &obj, Src &order) {
@@ -121,6 +136,7 @@ static const char *kName = "cpp";
 static void run_case(Src &s) {
     Stats &st = stats();
     DocCase c = decode_doc(s, opts());
+    pad_first(c, s);
     std::string what = fmt("doc(%zu)=%s", c.doc.size(), ref::hex(c.doc, 160).c_str());
     ref::Rec rec = ref::recognise(c.doc.data(), c.doc.size(), false, 10, true);
 
@@ -183,6 +199,7 @@ static void run_case(Src &s) {
 
 static void describe_case(Src &s, FILE *out) {
     DocCase c = decode_doc(s, opts());
+    pad_first(c, s);
     fprintf(out, "%s\n", describe_doc(c).c_str());
     ref::Rec rec = ref::recognise(c.doc.data(), c.doc.size(), false, 10, true);
     fprintf(out, "  verify(depth 10) reference verdict: %s (%s at %zu)\n", rec.ok ? "valid" : "invalid", rec.why, rec.off);
